@@ -102,14 +102,20 @@ Fixpoint create_all (fixed : bool) (kvs : list (str * Z)) (f : flds) (upd : bool
 Record share := { fl : flds; stamp : option Z; deck : list (option Z) }.
 (* shT = the store's own .time share (Store.timeShr): created by Store.__init__, rewritten by every
    changeStamp / advanceStamp; no operation of the model addresses it *)
-Record st := { sstamp : option Z; shA : share; shB : share; shT : share }.
+(* attA / attB = does the share currently reference the store (share.store is the Store)?  Initially A does
+   (store.create) and B does not (Share(name=...)); changeStore(None) / changeStore(store) flip it. *)
+Record st := { sstamp : option Z; shA : share; shB : share; shT : share; attA : bool; attB : bool }.
 
 Definition sh (w : bool) (s : st) : share := if w then shA s else shB s.
 Definition set_sh (w : bool) (x : share) (s : st) : st :=
-  if w then {| sstamp := sstamp s; shA := x; shB := shB s; shT := shT s |}
-  else {| sstamp := sstamp s; shA := shA s; shB := x; shT := shT s |}.
+  if w then {| sstamp := sstamp s; shA := x; shB := shB s; shT := shT s; attA := attA s; attB := attB s |}
+  else {| sstamp := sstamp s; shA := shA s; shB := x; shT := shT s; attA := attA s; attB := attB s |}.
+Definition att (w : bool) (s : st) : bool := if w then attA s else attB s.
+Definition set_att (w : bool) (b : bool) (s : st) : st :=
+  if w then {| sstamp := sstamp s; shA := shA s; shB := shB s; shT := shT s; attA := b; attB := attB s |}
+  else {| sstamp := sstamp s; shA := shA s; shB := shB s; shT := shT s; attA := attA s; attB := b |}.
 (* self.store.stamp, or None when there is no store (AttributeError caught) *)
-Definition store_stamp (w : bool) (s : st) : option Z := if w then sstamp s else None.
+Definition store_stamp (w : bool) (s : st) : option Z := if att w s then sstamp s else None.
 
 Definition value_key : str := [118; 97; 108; 117; 101].   (* "value" *)
 
@@ -136,7 +142,11 @@ Inductive op :=
 | Gulp (w : bool) (e : option Z)
 | Spew (w : bool)
 | Advance (d : Z)                               (* store.advanceStamp(d) *)
-| SetStamp (t : Z).                             (* store.changeStamp(t)  *)
+| SetStamp (t : Z)                              (* store.changeStamp(t)  *)
+| Detach (w : bool)                             (* share.changeStore(None)  *)
+| Attach (w : bool)                             (* share.changeStore(store) *)
+| ForceStamp (w : bool) (t : Z)                 (* share.stamp = t, or Share(name, stamp=t) when first *)
+| SetData (w : bool) (kvs : list (str * Z)).    (* share.data = Data(kvs): the data setter *)
 
 Inductive res :=
 | ROk                      (* returned self / None, nothing to compare *)
@@ -207,10 +217,20 @@ Definition step_gen (fixed : bool) (s : st) (o : op) : st * res :=
       end
   | Advance d =>
       match sstamp s with
-      | Some t => ({| sstamp := Some (t + d); shA := shA s; shB := shB s; shT := tick fixed (t + d) (shT s) |}, ROk)
+      | Some t => ({| sstamp := Some (t + d); shA := shA s; shB := shB s; shT := tick fixed (t + d) (shT s);
+                      attA := attA s; attB := attB s |}, ROk)
       | None => (s, RErrType)
       end
-  | SetStamp t => ({| sstamp := Some t; shA := shA s; shB := shB s; shT := tick fixed t (shT s) |}, ROk)
+  | SetStamp t => ({| sstamp := Some t; shA := shA s; shB := shB s; shT := tick fixed t (shT s);
+                      attA := attA s; attB := attB s |}, ROk)
+  | Detach w => (set_att w false s, ROk)
+  | Attach w => (set_att w true s, ROk)
+  | ForceStamp w t => (set_sh w (with_stamp (sh w s) (Some t)) s, ROk)
+  | SetData w kvs =>
+      (* Data(kvs) is built first (a bad name raises there and the share is untouched), then installed
+         and the share stamped from its store, None without one *)
+      let '(f, ok) := set_all fixed kvs [] in
+      if ok then (set_sh w (with_stamp (with_fl (sh w s) f) (store_stamp w s)) s, ROk) else (s, RErrAttr)
   end.
 
 Definition step := step_gen true.
@@ -220,7 +240,8 @@ Definition empty_share : share := {| fl := []; stamp := None; deck := [] |}.
 (* Store.__init__: self.timeShr = self.create('.time').update(value = self.stamp or 0.0) *)
 Definition init_time (t0 : option Z) : share :=
   {| fl := [(value_key, Some (match t0 with Some t => t | None => 0 end))]; stamp := t0; deck := [] |}.
-Definition init (t0 : option Z) : st := {| sstamp := t0; shA := empty_share; shB := empty_share; shT := init_time t0 |}.
+Definition init (t0 : option Z) : st :=
+  {| sstamp := t0; shA := empty_share; shB := empty_share; shT := init_time t0; attA := true; attB := false |}.
 
 Definition run_from (s : st) (ops : list op) : st := fold_left (fun s o => fst (step s o)) ops s.
 Definition run (t0 : option Z) (ops : list op) : st := run_from (init t0) ops.
@@ -240,8 +261,9 @@ Definition obs_share := (option (list (str * Z)) * list str * Z * option Z * lis
 Definition observe1 (x : share) : obs_share := (items (fl x), keys (fl x), len (fl x), stamp x, deck x).
 (* store stamp, share A, share B, the .time share, and the stamps of the .realtime and .datetime shares
    (their values are wall-clock readings and are not modelled; their stamps are the store stamp) *)
-Definition obs := (option Z * obs_share * obs_share * obs_share * option Z * option Z)%type.
-Definition observe (s : st) : obs := (sstamp s, observe1 (shA s), observe1 (shB s), observe1 (shT s), sstamp s, sstamp s).
+Definition obs := (option Z * obs_share * obs_share * obs_share * option Z * option Z * bool * bool)%type.
+Definition observe (s : st) : obs :=
+  (sstamp s, observe1 (shA s), observe1 (shB s), observe1 (shT s), sstamp s, sstamp s, attA s, attB s).
 
 Fixpoint trace_gen (fixed : bool) (s : st) (ops : list op) : list (res * obs) :=
   match ops with
@@ -266,8 +288,9 @@ Definition obs1_eqb (a b : obs_share) : bool :=
   let '(i1, k1, l1, s1, d1) := a in let '(i2, k2, l2, s2, d2) := b in
   items_eqb i1 i2 && list_eqb str_eqb k1 k2 && Z.eqb l1 l2 && oz_eqb s1 s2 && list_eqb oz_eqb d1 d2.
 Definition obs_eqb (a b : obs) : bool :=
-  let '(t1, a1, b1, c1, r1, d1) := a in let '(t2, a2, b2, c2, r2, d2) := b in
-  oz_eqb t1 t2 && obs1_eqb a1 a2 && obs1_eqb b1 b2 && obs1_eqb c1 c2 && oz_eqb r1 r2 && oz_eqb d1 d2.
+  let '(t1, a1, b1, c1, r1, d1, x1, y1) := a in let '(t2, a2, b2, c2, r2, d2, x2, y2) := b in
+  oz_eqb t1 t2 && obs1_eqb a1 a2 && obs1_eqb b1 b2 && obs1_eqb c1 c2 && oz_eqb r1 r2 && oz_eqb d1 d2 &&
+  Bool.eqb x1 x2 && Bool.eqb y1 y2.
 Definition res_eqb (a b : res) : bool :=
   match a, b with
   | ROk, ROk | RErrAttr, RErrAttr | RErrKey, RErrKey | RErrIndex, RErrIndex | RErrType, RErrType
@@ -319,6 +342,7 @@ Definition a_fstep (m : amap) (o : op) : amap :=
   | Create _ kvs => a_create_all kvs m
   | SetItem _ k v => match a_setattr k v m with Some m' => m' | None => m end
   | DelItem _ k => a_del k m
+  | SetData _ kvs => if forallb (fun kv => ident_pub true (fst kv)) kvs then a_set_all kvs [] else m
   | _ => m
   end.
 
@@ -359,8 +383,9 @@ Definition pushes_none (o : op) : bool := match o with Push _ None => true | _ =
 Definition op_share (o : op) : option bool :=
   match o with
   | SetValue w _ | GetValue w | Update w _ | Change w _ | Create w _ | StampNow w | SetItem w _ _
-  | GetItem w _ | DelItem w _ | Contains w _ | Push w _ | Pull w | Gulp w _ | Spew w => Some w
+  | GetItem w _ | DelItem w _ | Contains w _ | Push w _ | Pull w | Gulp w _ | Spew w
+  | Detach w | Attach w | ForceStamp w _ | SetData w _ => Some w
   | Advance _ | SetStamp _ => None
   end.
 Definition stamping (o : op) : bool :=
-  match o with SetValue _ _ | Update _ _ | Create _ _ | StampNow _ => true | _ => false end.
+  match o with SetValue _ _ | Update _ _ | Create _ _ | StampNow _ | SetData _ _ | ForceStamp _ _ => true | _ => false end.
